@@ -56,9 +56,10 @@ impl<'tree> Graph<'tree> {
     pub fn add_syntax_node(&mut self, node: Node<'tree>) -> SyntaxNodeRef {
         let index = node.id() as SyntaxNodeID;
         let node_ref = SyntaxNodeRef {
-            index,
-            kind: node.kind(),
             position: node.start_position(),
+            end_position: node.end_position(),
+            kind: node.kind(),
+            index,
         };
         self.syntax_nodes.entry(index).or_insert(node);
         node_ref
@@ -640,11 +641,16 @@ impl Serialize for Value {
 }
 
 /// A reference to a syntax node in a graph
+///
+/// References are ordered by the place of the node in the source (start, end, kind), so that the order of
+/// the elements of a set of syntax nodes, and every text rendered from it, does not depend on where the
+/// nodes happen to lie in memory.  The node id only breaks ties between nodes that agree on all of these.
 #[derive(Clone, Copy, Eq, Hash, Ord, PartialEq, PartialOrd)]
 pub struct SyntaxNodeRef {
-    pub(crate) index: SyntaxNodeID,
-    kind: &'static str,
     position: tree_sitter::Point,
+    end_position: tree_sitter::Point,
+    kind: &'static str,
+    pub(crate) index: SyntaxNodeID,
 }
 
 impl From<tree_sitter::Point> for Location {
